@@ -144,9 +144,9 @@ def grid_configs(tier: str, seed: int, scheds=("lpsd", "ltf", "vectorized", "new
     out = []
     small = list(range(8, 65))
     big = [100, 257, 1000, 4096]
-    n_small = 5000 if tier == "quick" else 90000
-    n_big = 600 if tier == "quick" else 6000
-    n_rand = 1500 if tier == "quick" else 30000
+    n_small = 5000 if tier == "quick" else 30000
+    n_big = 600 if tier == "quick" else 3000
+    n_rand = 1500 if tier == "quick" else 12000
 
     def mk(N, on, od, bn, bd, Lmin, J, Kd, s):
         fs = rnd.choice([float(N), 1.0, 0.75 * N, 2.0, 1000.0, 0.1])
